@@ -94,7 +94,7 @@ LDX_c03 := $(WRAP_CRASH)
 EXTRA_c05 := wrap_crash.o
 LDX_c05 := $(WRAP_CRASH)
 LDX_c04 := -Wl,--wrap=usleep
-LDX_c06 := -Wl,--wrap=recv
+LDX_c06 := -Wl,--wrap=recv -Wl,--wrap=send
 EXTRA_c17 := wrap_random.o
 LDX_c17 := $(WRAP_RANDOM)
 EXTRA_c18 := wrap_random.o
